@@ -4,7 +4,8 @@
 From Coq Require Import String.
 From Coq Require Import ZArith List Bool.
 From LasV Require Import Lib.Base Lib.Layout Gen.GenFormatBits Gen.GenC14 Model.Las Model.LasSpec Model.Laz
-  Proofs.LazProofs Proofs.LazBackendProofs Proofs.LazContract Proofs.LazWitness Model.LazSelect Proofs.LazSelectProofs.
+  Proofs.LazProofs Proofs.LazBackendProofs Proofs.LazContract Proofs.LazWitness Model.LazSelect Proofs.LazSelectProofs
+  Model.LazForm Proofs.LazFormProofs.
 Import ListNotations.
 Open Scope list_scope.
 Open Scope Z_scope.
@@ -258,6 +259,85 @@ Theorem C14_encoding_errors_plumbing : gen_encoding_errors_reaches_header_writes
 Proof. split; reflexivity. Qed.
 Print Assumptions C14_encoding_errors_plumbing.
 
+(* ---- the FORMS of the argument laz_backend (Model/LazForm.v; gen_*_backends are emitted by the translator only when LasReader,
+   LasWriter and LasAppender replace None by the default selection, normalise with `try: iter(x) except TypeError: (x,)`,
+   loop over the result, and every entry point hands laz_backend on unchanged) ---- *)
+(* ONE bare backend (an enum member or any other backend object) is the selection that holds just it, an iterable is itself,
+   an absent argument is the default selection (both lazrs variants, the parallel one first) - at the three places alike *)
+Theorem C14_backend_forms_normalised :
+  (forall p, gen_reader_backends (C14One p) = [p] /\ gen_writer_backends (C14One p) = [p] /\ gen_appender_backends (C14One p) = [p])
+  /\ (forall l, gen_reader_backends (C14Many l) = l /\ gen_writer_backends (C14Many l) = l /\ gen_appender_backends (C14Many l) = l)
+  /\ gen_reader_backends C14Absent = gen_default_backends /\ gen_writer_backends C14Absent = gen_default_backends
+  /\ gen_appender_backends C14Absent = gen_default_append_backends
+  /\ gen_default_backends <> [] /\ In false gen_default_backends /\ gen_default_append_backends <> [].
+Proof. exact forms_normalised. Qed.
+Print Assumptions C14_backend_forms_normalised.
+
+Theorem C14_backend_form_same_at_every_entry_point : forall f,
+  gen_writer_backends f = gen_reader_backends f /\ gen_appender_backends f = gen_reader_backends f.
+Proof. exact forms_agree. Qed.
+Print Assumptions C14_backend_form_same_at_every_entry_point.
+
+(* whole-file transparency for an argument of ANY form that names a backend *)
+Theorem C14_transparent_whole_file_any_form : forall ap, ap_ok ap -> forall B, conforming B -> forall h vl fmt recs evl f g fm junk,
+  wf_las ap h vl fmt recs evl -> wf_laz ap B h vl fmt recs evl ->
+  file_of ap h vl fmt recs evl = Ok f -> B_file_of ap B h vl fmt recs evl = Ok g ->
+  form_names_a_backend fm = true ->
+  exists lf lg, read_file f = Ok lf /\ B_read_form B fm (g ++ junk) = Ok lg
+    /\ lz_points lg = recs /\ lf_points lf = recs
+    /\ rh_vlrs (lz_h lg) = vl /\ rh_vlrs (lf_h lf) = vl
+    /\ rh_evlrs (lz_h lg) = rh_evlrs (lf_h lf)
+    /\ rh_psize (lz_h lg) = rh_psize (lf_h lf) /\ rh_fmt (lz_h lg) = rh_fmt (lf_h lf)
+    /\ rh_compressed (lz_h lg) = true /\ rh_compressed (lf_h lf) = false
+    /\ (forall n, In n (header_field_names (aint h "version.minor")) -> layout_field n = false ->
+          aget (rh_fields (lz_h lg)) n = aget (rh_fields (lf_h lf)) n).
+Proof. exact form_transparent_whole. Qed.
+Print Assumptions C14_transparent_whole_file_any_form.
+
+(* ... chunked reading and seek-and-read ... *)
+Theorem C14_transparent_cursor_any_form : forall ap, ap_ok ap -> forall B, conforming B -> forall h vl fmt recs evl f g fm junk,
+  wf_las ap h vl fmt recs evl -> wf_laz ap B h vl fmt recs evl ->
+  file_of ap h vl fmt recs evl = Ok f -> B_file_of ap B h vl fmt recs evl = Ok g -> form_names_a_backend fm = true ->
+  exists rs rz s0, dec_header f true = Ok rs /\ dec_header (g ++ junk) true = Ok rz
+    /\ B_source_form B fm true rz (g ++ junk) = Ok s0
+    /\ forall ops, ops_ok (len recs) 0 ops = true ->
+         snd (prun (B_pstep B) s0 ops) = snd (prun (las_pstep f (rh_offset rs) (rh_psize rs)) 0 ops)
+         /\ snd (prun (B_pstep B) s0 ops) = snd (prun (spec_pstep recs) 0 ops).
+Proof. exact form_transparent_cursor. Qed.
+Print Assumptions C14_transparent_cursor_any_form.
+
+(* ... a non-seekable source, for any form that names the serial variant somewhere ... *)
+Theorem C14_transparent_nonseekable_any_form : forall ap, ap_ok ap -> forall B, conforming B -> forall h vl fmt recs evl g fm junk,
+  wf_las ap h vl fmt recs evl -> wf_laz ap B h vl fmt recs evl ->
+  B_file_of ap B h vl fmt recs evl = Ok g -> form_names_serial fm = true ->
+  exists lg, B_read_ns_form B fm (g ++ junk) = Ok lg
+    /\ lz_points lg = recs /\ rh_vlrs (lz_h lg) = vl
+    /\ rh_evlrs (lz_h lg) = (if aint h "version.minor" >=? 4 then Some evl else None).
+Proof. exact form_transparent_nonseekable. Qed.
+Print Assumptions C14_transparent_nonseekable_any_form.
+
+(* ... and appending (mode "a" / LasAppender) with an argument of any form that names a backend *)
+Theorem C14_append_any_form : forall ap, ap_ok ap -> forall B, conforming B -> forall h vl fmt A evl Bs g0 g1 fm,
+  wf_las ap h vl fmt A evl -> wf_laz ap B h vl fmt A evl ->
+  wf_las ap h vl fmt (A ++ concat Bs) evl -> wf_laz ap B h vl fmt (A ++ concat Bs) evl ->
+  B_file_of ap B h vl fmt A evl = Ok g0 -> B_file_of ap B h vl fmt (A ++ concat Bs) evl = Ok g1 ->
+  form_names_a_backend fm = true ->
+  exists junk, B_append_form ap B fm g0 Bs = Ok (g1 ++ junk).
+Proof. exact form_append. Qed.
+Print Assumptions C14_append_any_form.
+
+(* the loop over the normalised selection: the outcome is that of the LAST variant tried (the error handed in when there is
+   nothing to try), every variant tried before it refused, and the variants tried are a prefix of the selection *)
+Theorem C14_first_constructing_backend_wins : forall dst (d_open : bool -> bool -> list Z -> list Z -> result dst) backends sk d src last,
+  select dst d_open backends sk d src last =
+    match rev (select_tried d_open backends sk d src) with [] => Err last | p :: _ => d_open p sk d src end
+  /\ (forall p, In p (removelast (select_tried d_open backends sk d src)) -> is_ok (d_open p sk d src) = false)
+  /\ exists rest, backends = select_tried d_open backends sk d src ++ rest.
+Proof.
+  intros. split; [apply select_tried_spec|]. split; [apply select_tried_refused|apply select_tried_prefix].
+Qed.
+Print Assumptions C14_first_constructing_backend_wins.
+
 (* the contract can be honoured: plain storage behind a unary record count is a conforming backend, so none of the
    theorems above is vacuous in its contract hypothesis (harness/fake_lazrs is the executable witness on the Python side) *)
 Theorem C14_contract_satisfiable : conforming store_backend.
@@ -300,6 +380,20 @@ Example C14_nonvacuous :
                 end
          | _, _, _ => false
          end
+      (* the forms of laz_backend: the bare serial backend, the list that holds it, a two-element iterable and the absent
+         argument read the same records; on a source that cannot seek the default selection tries the parallel variant, then
+         the serial one; appending nothing with the bare parallel backend gives the file back *)
+      && match B_read_form store_backend (C14One false) g, B_read_form store_backend (C14Many [false]) g,
+               B_read_ns_form store_backend C14Absent g, B_append_form ex_ap store_backend (C14One true) g [] with
+         | Ok a, Ok b, Ok c, Ok g2 => list_eqb (concat (lz_points a)) (concat (lz_points b))
+                                      && list_eqb (concat (lz_points a)) (concat (lz_points c)) && (len (lz_points a) =? 3)
+                                      && list_eqb g2 g
+         | _, _, _, _ => false
+         end
+      && match select_tried (b_dopen store_backend) (gen_reader_backends C14Absent) false (repeat 0 30) g with
+         | [true; false] => true | _ => false end
+      && match writer_variant (C14One false), writer_variant C14Absent, writer_variant (C14Many []) with
+         | Some false, Some true, None => true | _, _, _ => false end
       && decide_open true false [46; 76; 97; 90] None false
       && negb (decide_open true false [46; 76; 97; 90] (Some false) true)
       && decide_lasdata false [] None true
